@@ -306,7 +306,12 @@ fn tx_fees(ctx: &mut Ctx, r: &mut Rng, _i: u64) {
     if nred > 0 {
         ws.set_redeemers(&reds);
     }
-    let tx = Transaction::new(&body, &ws, None);
+    let mut tx = Transaction::new(&body, &ws, None);
+    // the fee formulas do not consult the phase-2 validity flag
+    if r.below(4) == 0 {
+        tx.set_is_valid(false);
+        ctx.bucket("tx.is_valid-false");
+    }
     let bytes = tx.to_bytes();
     let parsed = match vkit::cbor::parse(&bytes) {
         Ok(p) => p,
